@@ -141,6 +141,17 @@ def Lb.next (l : Lb) : Option Nat × Lb :=
     let i := if l.nextIdx ≥ len then 0 else l.nextIdx
     (l.peers[i]?, { l with nextIdx := (i + 1) % len })
 
+/-- representation invariant: no duplicate peers, cursor within range (or list empty) -/
+def Lb.Good (l : Lb) : Prop := l.peers.Nodup ∧ (l.peers = [] ∨ l.nextIdx < l.peers.length)
+
+/-- who is served next: the peer under the cursor -/
+def Lb.upNext (l : Lb) : Option Nat := l.peers[l.nextIdx]?
+
+/-- the results of `k` consecutive `get_next_connection` calls -/
+def Lb.nexts : Nat → Lb → List (Option Nat)
+  | 0, _ => []
+  | k + 1, l => l.next.1 :: Lb.nexts k l.next.2
+
 -- ---------------------------------------------------------------------------------------------
 -- ROUTER identity map
 -- ---------------------------------------------------------------------------------------------
@@ -239,6 +250,82 @@ def prepareWire (s : Strat) (manual : Bool) (id : Frame) (payload : List Frame) 
   | .router => payload
   | .dealer => if manual then payload else enc ((if payload.isEmpty then id else setMore id) :: payload)
   | .default => enc ((if payload.isEmpty then id else setMore id) :: payload)
+
+-- ---------------------------------------------------------------------------------------------
+-- Socket-level envelope handling (dealer_socket.rs, router_socket.rs, req_socket.rs, rep_socket.rs)
+-- ---------------------------------------------------------------------------------------------
+
+/-- MORE on all frames but the last -/
+def normFlags : List Frame → List Frame
+  | [] => []
+  | [f] => [{ f with more := false }]
+  | f :: g :: rest => { f with more := true } :: normFlags (g :: rest)
+
+/-- clear MORE on the last frame only -/
+def clearLastMore : List Frame → List Frame
+  | [] => []
+  | [f] => [{ f with more := false }]
+  | f :: g :: rest => f :: clearLastMore (g :: rest)
+
+/-- `DealerSocket::prepare_full_multipart_send_sequence` -/
+def dealerPrepareSend (manual : Bool) (frames : List Frame) : List Frame :=
+  if manual then normFlags frames
+  else if frames.isEmpty then [emptyFrame true, emptyFrame false]
+  else normFlags (dealerAutoEncode frames)
+
+/-- `DealerSocket::process_incoming_zmtp_message_for_dealer` -/
+def dealerProcessIncoming (manual : Bool) (frames : List Frame) : List Frame :=
+  if manual then frames else
+  match frames with
+  | [] => []
+  | f0 :: rest =>
+    if !f0.payload.isEmpty then
+      -- first frame assumed to be the ROUTER's identity: dropped, then the delimiter if present
+      match rest with
+      | [] => []
+      | g :: rest' => if !g.payload.isEmpty then g :: rest' else rest'
+    else rest
+
+inductive PeerType where
+  | req | dealer | router | other
+deriving DecidableEq, Repr
+
+/-- `RouterSocket::process_incoming_zmtp_message` (payload part) -/
+def routerProcessIncoming (manual : Bool) (pt : PeerType) (frames : List Frame) : List Frame :=
+  if manual then frames else
+  match pt with
+  | .router => frames
+  | _ => match frames with
+    | f0 :: rest => if f0.payload.isEmpty then rest else frames
+    | [] => []
+
+/-- `RouterSocket::transform_qitem_to_app_frames` -/
+def routerToApp (id : List UInt8) (payload : List Frame) : List Frame :=
+  clearLastMore ({ payload := id, more := !payload.isEmpty, command := false } :: payload)
+
+/-- `RouterSocket::send_multipart` after the identity lookup: wire frames handed to the connection -/
+def routerSendWire (s : Strat) (manual : Bool) (frames : List Frame) : List Frame :=
+  match frames with
+  | [] => []
+  | id :: payload => clearLastMore (prepareWire s manual id payload)
+
+/-- `ReqSocket::send`: `[delimiter(MORE), msg]` -/
+def reqSendWire (msg : Frame) : List Frame := [emptyFrame true, { msg with more := false }]
+
+/-- `ReqSocket::process_incoming_zmtp_message_for_req` -/
+def reqProcessIncoming : List Frame → List Frame
+  | f0 :: rest => if f0.payload.isEmpty then rest else f0 :: rest
+  | [] => []
+
+/-- `RepSocket::extract_routing_prefix`: everything up to and including the first empty frame -/
+def repExtractPrefix (frames : List Frame) : List Frame × List Frame :=
+  match frames.findIdx? (fun f => f.payload.isEmpty) with
+  | some i => (frames.take (i + 1), frames.drop (i + 1))
+  | none => ([], frames)
+
+/-- `RepSocket::send_multipart` wire frames for a reply -/
+def repReplyWire (pfx payload : List Frame) : List Frame :=
+  normFlags (pfx ++ (if payload.isEmpty then [emptyFrame false] else payload))
 
 -- ---------------------------------------------------------------------------------------------
 -- Reconnect back-off (milliseconds)
